@@ -151,6 +151,7 @@ func c01(r *core.Run) {
 		c06DefaultGroupOnlyWithoutGroup(r, "F4", ro)
 	}
 	c01GroupArg(r, "F2", a, root)
+	c01EnqueueNeverRunsCallback(r, "F1", a)
 }
 
 func valDescQ(v ssa.Value, a *svcAnchors) string {
@@ -1104,33 +1105,66 @@ func c01GroupArg(r *core.Run, rule string, a *svcAnchors, root []*ssa.Function) 
 		f, ok := core.LoadedField(st.Val)
 		r.Check(ok && f == matchGroup, rule, core.FuncName(ac.Fn), "store(resource.group)<-Match.Group", p.InstrPos(st), "resource.group is the routed Match.Group", "resource.group written from "+valDesc(st.Val))
 	}
+	// ... and no resource is built from a routed handler without its group: wherever the handler
+	// member of a resource is written, the group member of the same object is written too (a
+	// resource without group reports "" - the parallel group - and everything a handler submits
+	// through its own request runs beside the group's callbacks)
+	resH := core.Field{Struct: "resource", Name: "h"}
+	for _, ac := range core.FieldAccesses(root, func(f core.Field) bool { return f == resH }) {
+		if ac.Kind != "store" {
+			continue
+		}
+		fa, isFA := ac.Instr.(*ssa.Store).Addr.(*ssa.FieldAddr)
+		if !isFA {
+			continue
+		}
+		base := fieldChain(fa.X, 0)
+		has := false
+		for _, ac2 := range core.FieldAccesses([]*ssa.Function{ac.Fn}, func(f core.Field) bool { return f == resGroup }) {
+			if ac2.Kind != "store" {
+				continue
+			}
+			if fa2, ok := ac2.Instr.(*ssa.Store).Addr.(*ssa.FieldAddr); ok && (fa2.X == fa.X || fieldChain(fa2.X, 0) == base) {
+				has = true
+			}
+		}
+		r.Check(has, rule, core.FuncName(ac.Fn), "resource-built-with-handler-gets-its-group", p.InstrPos(ac.Instr), "the object whose handler member is written also gets its group member", "a resource is built from a routed handler without its group member being set: Group() reports the empty (parallel) group, so WithResource / QueryEvent on this request queue under no group at all and run concurrently with the group's other callbacks")
+	}
 	// writers of Match.Group: result of (group).toString on the matched node's handler group
 	for _, ac := range core.FieldAccesses(root, func(f core.Field) bool { return f == matchGroup }) {
 		if ac.Kind != "store" {
 			continue
 		}
 		st := ac.Instr.(*ssa.Store)
-		c, ok := st.Val.(*ssa.Call)
-		good := ok && c.Common().StaticCallee() != nil && isGroupToString(c.Common().StaticCallee())
-		if good {
-			gf, ok := core.LoadedField(c.Common().Args[0])
-			good = ok && gf.Struct == "regHandler" && gf.Name == "group"
-		}
-		// the name handed to toString is what an unset group defaults to: it must be the looked-up
-		// resource name itself (the lookup's string parameter), not a remainder of it
-		if good && len(c.Common().Args) > 1 {
-			nameOK := false
-			for _, av := range paramArgs(p, core.Strip(c.Common().Args[1]), 0) {
-				if prm, ok := core.Strip(av).(*ssa.Parameter); ok && isStringType(prm.Type()) && prm.Parent().Object() != nil && prm.Parent().Object().Exported() {
-					nameOK = true
-				} else {
-					nameOK = false
-					break
-				}
+		// the value stored, or - when the Match is built by a helper - what its call sites hand in
+		vals := paramArgs(p, st.Val, 0)
+		allGood := len(vals) > 0
+		for _, sv := range vals {
+			c, ok := core.Strip(sv).(*ssa.Call)
+			good := ok && c.Common().StaticCallee() != nil && isGroupToString(c.Common().StaticCallee())
+			if good {
+				gf, ok := core.LoadedField(c.Common().Args[0])
+				good = ok && gf.Struct == "regHandler" && gf.Name == "group"
 			}
-			r.Check(nameOK, rule, core.FuncName(ac.Fn), "default-group<-full-resource-name", p.InstrPos(c), "an unset group defaults to the full resource name", "the group template is evaluated with "+valDesc(c.Common().Args[1])+" instead of the full resource name: a handler without a Group option gets the wrong (possibly empty = parallel) worker group")
+			// the name handed to toString is what an unset group defaults to: it must be the looked-up
+			// resource name itself (the lookup's string parameter), not a remainder of it
+			if good && len(c.Common().Args) > 1 {
+				nameOK := false
+				for _, av := range paramArgs(p, core.Strip(c.Common().Args[1]), 0) {
+					if prm, ok := core.Strip(av).(*ssa.Parameter); ok && isStringType(prm.Type()) && prm.Parent().Object() != nil && prm.Parent().Object().Exported() {
+						nameOK = true
+					} else {
+						nameOK = false
+						break
+					}
+				}
+				r.Check(nameOK, rule, core.FuncName(c.Parent()), "default-group<-full-resource-name", p.InstrPos(c), "an unset group defaults to the full resource name", "the group template is evaluated with "+valDesc(c.Common().Args[1])+" instead of the full resource name: a handler without a Group option gets the wrong (possibly empty = parallel) worker group")
+			}
+			if !good {
+				allGood = false
+			}
 		}
-		r.Check(good, rule, core.FuncName(ac.Fn), "store(Match.Group)<-regHandler.group.toString", p.InstrPos(st), "Match.Group is the registered group template evaluated on the name", "Match.Group written from "+valDesc(st.Val))
+		r.Check(allGood, rule, core.FuncName(ac.Fn), "store(Match.Group)<-regHandler.group.toString", p.InstrPos(st), "Match.Group is the registered group template evaluated on the name", "Match.Group written from "+valDesc(st.Val))
 	}
 	c01ParallelGroup(r, rule)
 }
@@ -1789,4 +1823,69 @@ func isGroupToString(fn *ssa.Function) bool {
 	}
 	b, ok := res.At(0).Type().Underlying().(*types.Basic)
 	return ok && b.Kind() == types.String
+}
+
+// c01EnqueueNeverRunsCallback: the submitting function hands the callback to
+// the group's queue and nothing else - it (and its helpers) never calls it. A
+// "caller runs" path (queue full, service busy) executes the callback on the
+// submitting goroutine, registered nowhere: a second submission for the same
+// group finds no entry and runs beside it.
+func c01EnqueueNeverRunsCallback(r *core.Run, rule string, a *svcAnchors) {
+	p := r.P
+	fn := a.Enqueue
+	var cbs []*ssa.Parameter
+	for _, prm := range fn.Params {
+		if _, isSig := prm.Type().Underlying().(*types.Signature); isSig {
+			cbs = append(cbs, prm)
+		}
+	}
+	if len(cbs) == 0 {
+		r.Unres(rule, core.FuncName(fn)+".<callback>", "the submitting function has no function-typed parameter")
+		return
+	}
+	inUnit := map[*ssa.Function]bool{}
+	for _, h := range p.Helpers(fn) {
+		inUnit[h] = true
+	}
+	// isCb: the value is the callback parameter, also seen through a helper's parameter
+	var isCb func(v ssa.Value, d int) bool
+	isCb = func(v ssa.Value, d int) bool {
+		v = core.Strip(v)
+		for _, cb := range cbs {
+			if v == ssa.Value(cb) {
+				return true
+			}
+		}
+		prm, ok := v.(*ssa.Parameter)
+		if !ok || d > 3 || prm.Parent() == fn || !inUnit[prm.Parent()] {
+			return false
+		}
+		idx := -1
+		for i, q := range prm.Parent().Params {
+			if q == prm {
+				idx = i
+			}
+		}
+		for _, cs := range p.CallersOf(prm.Parent()) {
+			if idx >= 0 && idx < len(cs.Common().Args) && inUnit[core.Outermost(cs.Parent())] && isCb(cs.Common().Args[idx], d+1) {
+				return true
+			}
+		}
+		return false
+	}
+	bad := ""
+	for _, h := range p.Helpers(fn) {
+		if h.Parent() != nil {
+			continue
+		}
+		for _, c := range core.Calls(h) {
+			if c.Common().StaticCallee() != nil || c.Common().IsInvoke() {
+				continue
+			}
+			if isCb(c.Common().Value, 0) {
+				bad = p.InstrPos(c)
+			}
+		}
+	}
+	r.Check(bad == "", rule, core.FuncName(fn), "enqueue-never-calls-the-callback", p.Pos(fn.Pos()), "the callback is only stored into the group's queue", "the submitting function calls the callback itself (at "+bad+"): it runs on the submitting goroutine without the group being registered as busy, so another callback of the same group - submitted from another goroutine, or picked up by a worker - executes at the same time")
 }
